@@ -173,9 +173,10 @@ def detection_defeated(L):
     return False
 
 
-def graph_cyclic(L):
+def graph_cyclic(L, through_constants=True):
     """True if the creator/variables graph reachable from L contains a cycle (an in-place update on a cleared tensor whose
-    dependants were still alive). On such a graph the unchanged library raises InvalidBackprop."""
+    dependants were still alive). On such a graph the unchanged library raises InvalidBackprop - provided the cycle does not run
+    through a constant tensor, which back-propagation never enters (through_constants=False ignores those)."""
     WHITE, GREY, BLACK = 0, 1, 2
     color = {}
     stack = [(L, iter(L._creator.variables if L._creator is not None else ()))]
@@ -186,6 +187,8 @@ def graph_cyclic(L):
         if nxt is None:
             color[id(node)] = BLACK
             stack.pop()
+            continue
+        if not through_constants and nxt.constant:
             continue
         c = color.get(id(nxt), WHITE)
         if c == GREY:
@@ -244,7 +247,7 @@ def run_case(case):
     # mechanism probe (for classification only): is there an operation in L's recorded graph one of whose inputs no longer lists
     # it as a consumer although that input's consumer set is non-empty again (cleared, then refilled by re-use)?
     defeated = detection_defeated(it.env[L])
-    cyclic = graph_cyclic(it.env[L])
+    cyclic = graph_cyclic(it.env[L], through_constants=False)
     if it.env[L]._creator is None:
         # L itself was cleared (it became upstream of another tensor through an in-place update and that tensor was cleared or
         # back-propagated): L is a graph-less leaf now, backward() on it has nothing to compute - outside the property's premise
